@@ -7,14 +7,20 @@ pub mod c28;
 pub mod c29;
 pub mod c30;
 pub mod c35;
+pub mod dirchecks;
 
 pub fn dispatch(id: &str, args: &[String]) -> ! {
     match id {
         "C02" => c02::run(args),
+        "C03" => dirchecks::run("C03", args),
         "C10" => c10::run(args),
         "C11" => c11::run(args),
         "C12" => c12::run(args),
+        "C17" => dirchecks::run("C17", args),
+        "C19" => dirchecks::run("C19", args),
         "C21" => c21::run(args),
+        "C22" => dirchecks::run("C22", args),
+        "C26" => dirchecks::run("C26", args),
         "C28" => c28::run(args),
         "C29" => c29::run(args),
         "C30" => c30::run(args),
@@ -24,4 +30,86 @@ pub fn dispatch(id: &str, args: &[String]) -> ! {
             std::process::exit(2);
         }
     }
+}
+
+pub fn bench2() {
+    use crate::srv::{self, Srv};
+    use kanidmd_lib::prelude::*;
+    let dir = std::path::PathBuf::from("/dev/shm/kvbench");
+    let _ = std::fs::remove_dir_all(&dir);
+    std::fs::create_dir_all(&dir).unwrap();
+    let tpl = dir.join("tpl.db");
+    let t = std::time::Instant::now();
+    {
+        let s = Srv::new_at(Some(&tpl), 2, DOMAIN_TGT_LEVEL);
+        drop(s);
+    }
+    eprintln!("template init on tmpfs: {:?}; files: {:?}", t.elapsed(), std::fs::read_dir(&dir).unwrap().map(|e| (e.as_ref().unwrap().file_name(), e.unwrap().metadata().unwrap().len())).collect::<Vec<_>>());
+    for i in 0..5 {
+        let t = std::time::Instant::now();
+        let p = dir.join(format!("c{i}.db"));
+        std::fs::copy(&tpl, &p).unwrap();
+        let s = Srv::new_at(Some(&p), 2, DOMAIN_TGT_LEVEL);
+        let a = t.elapsed();
+        let t = std::time::Instant::now();
+        let r = s.write(srv::t(50 + i), |w| {
+            let mut e: kanidmd_lib::entry::Entry<kanidmd_lib::entry::EntryInit, kanidmd_lib::entry::EntryNew> = kanidmd_lib::entry::Entry::new();
+            e.add_ava(Attribute::Class, EntryClass::Object.to_value());
+            e.add_ava(Attribute::Class, EntryClass::Group.to_value());
+            e.add_ava(Attribute::Name, Value::new_iname("g"));
+            w.internal_create(vec![e])
+        });
+        eprintln!("copy+reopen {a:?}; one write {:?} -> {r:?}", t.elapsed());
+        drop(s);
+        let _ = std::fs::remove_file(&p);
+    }
+    let _ = std::fs::remove_dir_all(&dir);
+}
+
+pub fn bench() {
+    use crate::worlds::dir::{Cfg, Dir, Op};
+    use kv_engine::forkdfs::World;
+    let t0 = std::time::Instant::now();
+    let mut w = Dir::new(Cfg { slots: vec![0, 2, 4], names: 2, lifecycle: true, domain_rename: true, props: ["C22"].into_iter().collect(), ..Default::default() });
+    eprintln!("new: {:?}", t0.elapsed());
+    for op in [Op::Create(0, 0), Op::Create(2, 1), Op::Rename(0, 1), Op::Delete(0), Op::Revive(0)] {
+        let t = std::time::Instant::now();
+        let l = w.apply(&op);
+        let a = t.elapsed();
+        let t = std::time::Instant::now();
+        let c = w.check(None);
+        let b = t.elapsed();
+        let t = std::time::Instant::now();
+        let _ = w.canon();
+        let o = w.ops();
+        eprintln!("{op:?} -> {l}: apply {a:?} check {b:?} ({}) canon+ops {:?} ({} ops)", c.len(), t.elapsed(), o.len());
+    }
+    let t = std::time::Instant::now();
+    for _ in 0..20 {
+        let pid = unsafe { libc::fork() };
+        if pid == 0 {
+            unsafe { libc::_exit(0) };
+        }
+        let mut st = 0;
+        unsafe { libc::waitpid(pid, &mut st, 0) };
+    }
+    eprintln!("20 bare forks: {:?}", t.elapsed());
+    let vis = if std::env::var("KV_VIS").is_ok() { Some(kv_engine::shm::Visited::new(24)) } else { None };
+    if let Some(v) = &vis { v.insert(12345); }
+    let t = std::time::Instant::now();
+    for _ in 0..20 {
+        let pid = unsafe { libc::fork() };
+        if pid == 0 {
+            let t = std::time::Instant::now();
+            let _ = w.apply(&Op::Rename(2, 0));
+            let a = t.elapsed();
+            let t = std::time::Instant::now();
+            let _ = w.apply(&Op::Rename(2, 1));
+            eprintln!("child apply1 {a:?} apply2 {:?}", t.elapsed());
+            unsafe { libc::_exit(0) };
+        }
+        let mut st = 0;
+        unsafe { libc::waitpid(pid, &mut st, 0) };
+    }
+    eprintln!("20 fork+apply: {:?}", t.elapsed());
 }
